@@ -22,6 +22,15 @@ func CheckPool(e *Env, prop string) (int, error) {
 	if err != nil {
 		return 2, err
 	}
+	// C18's "key objects are immutable" also over simulated time
+	stallBin, stallState := "", "not part of this property"
+	if prop == "C18" {
+		stallBin, stallState = e.buildStall()
+	}
+	stallRuns := 2000
+	if e.Tier == "thorough" {
+		stallRuns = 32000
+	}
 	a := newAgg()
 	budget := budgetSeconds(e.Tier, 30, 840)
 	perJob, perRound := 500, 16*500
@@ -38,6 +47,9 @@ func CheckPool(e *Env, prop string) (int, error) {
 		if round == 0 {
 			jobs = append(jobs, &Job{Bin: b, Variant: v, World: "pool", Prop: prop, From: 0, N: 6, Extra: []string{"-trace"}})
 			jobs = append(jobs, SplitRuns(b, v, "pool", prop, 6, perRound-6, perJob)...)
+			if stallBin != "" {
+				jobs = append(jobs, SplitRuns(stallBin, simStall.Name, "stall", prop, 0, stallRuns, stallRuns/16)...)
+			}
 			return jobs
 		}
 		return SplitRuns(b, v, "pool", prop, from, perRound, perJob)
@@ -46,6 +58,9 @@ func CheckPool(e *Env, prop string) (int, error) {
 		return 2, err
 	}
 	out, err := e.conclude(prop, a, func(r *kernel.Result) (string, string) {
+		if r.World == "stall" {
+			return stallBin, simStall.Name
+		}
 		if r.Variant == "purego" {
 			return binPure, "purego"
 		}
@@ -63,6 +78,7 @@ func CheckPool(e *Env, prop string) (int, error) {
 		"samples": e.samplesOrFetch(traced, 3, func() *Job {
 			return &Job{Bin: bin, Variant: "asm", World: "pool", Prop: prop, From: 0, N: 6, Extra: []string{"-trace"}}
 		}),
+		"aging_world":              map[string]any{"state": stallState, "runs": a.ByWorld["stall"], "simulated_clock_ms": a.StallMS, "what": "C18 only: key objects (three constructors) are built inside a testing/synctest bubble (go1.26.8), optionally observed, left alone for 1 s .. 1000 h of simulated time - every timer the library may have armed fires - and observed again (encodings, RFC 6979 signature, BIP-340 signature under zero aux, ECDH, verdicts); they must read as fresh keys from the same bytes do"},
 		"operations_executed":      a.Ops,
 		"fault_kinds_fired":        a.Faults,
 		"reach_probes":             a.Probes,
